@@ -107,6 +107,16 @@ Definition h_data_unmarshal (data : slice) : M slice :=
   seqM sl_cpy b data;
   retM b.
 
+(* AES128Key / EUI64 / DevAddr / NetID.UnmarshalBinary with the RECEIVER array on the heap as well, so that the
+   input may overlap it (k.UnmarshalBinary(k[:]), or a partial overlap inside one backing array).  After fix af377f9:
+     var tmp T; for i, v := range data { tmp[len(k)-i-1] = v }; *k = tmp
+   (the loop used to store into k directly and read bytes it had already overwritten) *)
+Definition h_ident_unmarshal (recv data : slice) : M unit :=
+  if negb (Nat.eqb (slen data) (slen recv)) then failM else
+  doM d <- loadM data;
+  doM _ <- sl_cpy_bytes recv (rev d);
+  retM tt.
+
 (* fhdr.go FHDR.UnmarshalBinary.  DevAddr / FCtrl / FCnt are decoded into
    values (fCntBytes is a scratch copy); FOpts (after fix b4e563a):
      if len(data) > 7 { fOpts := make([]byte, len(data)-7); copy(fOpts, data[7:])
@@ -265,10 +275,17 @@ Definition h_encrypt_fopts (key : list N) (afcntdown up : bool) (devaddr : list 
 (* marshalling                                                         *)
 (* =================================================================== *)
 
-(* MACCommandPayload.MarshalBinary: the proprietary payload returns p.Bytes itself *)
+(* DataPayload.MarshalBinary / ProprietaryMACCommandPayload.MarshalBinary (after fix 02a1cb6: they returned
+   p.Bytes itself):  out := make([]byte, len(p.Bytes)); copy(out, p.Bytes); return out *)
+Definition h_bytes_marshal (s : slice) : M slice :=
+  doM b <- sl_mk (slen s) (slen s);
+  seqM sl_cpy b s;
+  retM b.
+
+(* MACCommandPayload.MarshalBinary *)
 Definition h_macpl_marshal (p : hmacpl) : M slice :=
   match p with
-  | HPProp s => retM s
+  | HPProp s => h_bytes_marshal s
   | HPVal v => liftO (enc v) sl_lit
   end.
 
@@ -280,10 +297,10 @@ Definition h_cmd_marshal (g : nat -> nat) (cid : N) (p : option hmacpl) : M slic
   | Some p => doM ps <- h_macpl_marshal p; sl_app_sl g b ps
   end.
 
-(* Payload.MarshalBinary of an FOpts / FRMPayload element: DataPayload returns p.Bytes itself *)
+(* Payload.MarshalBinary of an FOpts / FRMPayload element *)
 Definition h_item_marshal (g : nat -> nat) (it : hitem) : M slice :=
   match it with
-  | HIData s => retM s
+  | HIData s => h_bytes_marshal s
   | HIMac c p => h_cmd_marshal g c p
   end.
 
@@ -314,7 +331,7 @@ Fixpoint h_frm_loop (g : nat -> nat) (port : option N) (its : list hitem) (out :
   | it :: rest =>
     doM b <- (match it with
           | HIMac c p => match port with Some 0 => h_cmd_marshal g c p | _ => failM end
-          | HIData s => retM s
+          | HIData s => h_bytes_marshal s
           end);
     doM o <- sl_app_sl g out b;
     h_frm_loop g port rest o
@@ -333,12 +350,12 @@ Definition h_mac_marshal (g : nat -> nat) (m : hmac) : M slice :=
     sl_app_sl g out b
   end.
 
-(* Payload.MarshalBinary of the MACPayload field: DataPayload returns p.Bytes itself *)
+(* Payload.MarshalBinary of the MACPayload field *)
 Definition h_payload_marshal (g : nat -> nat) (p : hpayload) : M slice :=
   match p with
   | HPLNil => failM
   | HPLMac m => h_mac_marshal g m
-  | HPLData s => retM s
+  | HPLData s => h_bytes_marshal s
   | HPLVal v => liftO (payload_marshal v) sl_lit
   end.
 
